@@ -9,8 +9,9 @@ p, w, suf = sys.argv[1:4]
 prop = open(w + '/PROPERTY.txt').read()
 tried = []
 for d in sorted(glob.glob(f'/verif/seeded/{p}-*')):
-    try: tried.append('- ' + json.load(open(d + '/meta.json'))['summary'])
-    except Exception: pass
+    for name in ('meta.json', 'meta.agent.json'):
+        try: tried.append('- ' + json.load(open(d + '/' + name))['summary']); break
+        except Exception: pass
 t = open('/verif/notes/MUT_PROMPT.txt').read().replace('{W}', w).replace('{PROPERTY}', prop).replace('{ID}', p.lower())
 t += ("\n\nIdeas that were already used in earlier rounds for this property — choose something clearly DIFFERENT (a different function, "
       "mechanism and trigger):\n" + '\n'.join(tried) + "\n\nPrefer a change that needs a multi-step history, an unusual value pattern, or two "
